@@ -47,7 +47,7 @@ m = {
         "name": "lean4-proof+correspondence",
         "path": "/verif/check",
         "serves_properties": [c["property_id"] for c in checks],
-        "kind_free_text": "Lean 4 theorems about a hand-written model (lean/Qvnt/Model) and reference semantics (lean/Qvnt/Spec); model tied to /repo on every run by a differential correspondence check (harness/ + lean/Driver.lean) and by translators: tools/rs2lean.py regenerates the atomic kernels, the sweep of dispatch.rs, math::rotate and the classical-register functions from the Rust source on every run and Lemmas/GenKernels.lean, GenRegs.lean prove them equal to the model; tools/extract.py regenerates the interpreter's gate table and constants",
+        "kind_free_text": "Lean 4 theorems about a hand-written model (lean/Qvnt/Model) and reference semantics (lean/Qvnt/Spec); model tied to /repo on every run by a differential correspondence check (harness/ + lean/Driver.lean) and by translators: tools/rs2lean.py regenerates the atomic kernels, the sweep of dispatch.rs, math::rotate and the classical-register functions from the Rust source on every run and Lemmas/GenKernels.lean, GenRegs.lean prove them equal to the model; tools/rs2lean2.py regenerates the register operations of quant.rs, SingleOp / MultiOp (apply with its buffer ping-pong, act_on, dgr, c, *=), BitsIter::next, multi::h::h and the remaining class.rs functions, and Lemmas/GenRegs2.lean proves each equal to the model; tools/extract.py regenerates the interpreter's gate table and constants",
     }],
     "checks": checks,
     "notes": "See DESIGN.md. Genuine defects found are repaired by 'fix:' commits in /repo or listed in KNOWN_FINDINGS.json.",
